@@ -587,6 +587,12 @@ fn main() {
         if let Some(x) = hist.get("expect") {
             reset.insert("expect".into(), x.clone());
         }
+        // the start image holds a stream whose chain has more sectors than its length needs (every event says so:
+        // the "chain length = ceil(size / sector)" rule does not apply to that history)
+        let surplus = hist["surplus"].as_bool() == Some(true);
+        if surplus {
+            reset.insert("surplus".into(), json!(true));
+        }
         reset.insert("open_mode".into(), hist.get("open_mode").cloned().unwrap_or(json!("permissive")));
         let started = catch_unwind(AssertUnwindSafe(|| start_history(hist, &tmpdir, &dict)));
         let mut live = match started {
@@ -659,6 +665,9 @@ fn main() {
                 }
             };
             let panicked = res["k"] == "panic";
+            if surplus {
+                ev.insert("surplus".into(), json!(true));
+            }
             ev.insert("res".into(), res);
             let is_heavy = !panicked
                 && live.cf.is_some()
